@@ -884,6 +884,8 @@ namespace pika::threads::detail {
                     (threads::detail::get_self_ptr() != nullptr ? 1 : 0);
             },
             "thread_manager::wait");
+        PIKA_VERIF_POST("tm.waitret", nullptr, pika::threads::detail::get_global_activity_count(),
+            (threads::detail::get_self_ptr() != nullptr ? 1 : 0));
     }
 
     void thread_manager::suspend()
